@@ -71,13 +71,33 @@ def analyse_unit(path):
     return out
 
 
+def _only_read(body, vid, vtype=''):
+    """is every mention of the variable a plain read of its value (directly under an lvalue-to-rvalue conversion)?  Anything else - assignment, increment,
+    address-of, binding to a reference, a member call - may change it"""
+    ok = [True]; seen = [0]
+    def visit(n, parent):
+        if isinstance(n, dict):
+            if n.get('k') == 'ref' and n.get('d') == vid:
+                seen[0] += 1
+                read = isinstance(parent, dict) and parent.get('k') == 'cast' and parent.get('ck') == 'LValueToRValue'
+                # p[ i ] with a pointer variable p reads the pointer (the extractor drops the conversion under a subscript); an array variable is its own storage
+                read = read or (isinstance(parent, dict) and parent.get('k') == 'index' and parent.get('b') is n and vtype.rstrip().endswith('*'))
+                if not read: ok[0] = False
+            for v in n.values(): visit(v, n)
+        elif isinstance(n, list):
+            for v in n: visit(v, parent)
+    visit(body, None)
+    return ok[0]
+
+
 def static_state_unit(path):
-    """function-local variables with static or thread storage that are not const, per function of one unit"""
+    """function-local variables with static or thread storage that can change after their initialisation, per function of one unit: not const, and
+    mentioned other than by reading their value (a `static const char* digits = "..."` that is only read is a constant in all but its type)"""
     db = core.DB([path])
     out = []
     for fn in db.order:
         for d in [d for s2 in walk(fn.get('body'), lambda n: n.get('k') == 'Decl', []) for d in s2.get('decls', [])]:
-            if d.get('static') and not d.get('const'):
+            if d.get('static') and not d.get('const') and not _only_read(fn.get('body'), d.get('id'), d.get('t') or ''):
                 out.append((fn['q'], d.get('n'), d.get('t'), core.rel(d.get('loc') or ''), '/tao/pegtl/' in fn['pat']))
     return out
 
